@@ -69,12 +69,17 @@ def write_csv(path, rows, rng, shift_days=0):
     import pandas as pd
     rows = [(dd + shift_days, o, c, a) for dd, o, c, a in rows]
     rng.shuffle(rows)
+    # the columns are found by NAME: their order in the file varies
+    cols = ["Date", "Open", "High", "Low", "Close", "Adj Close", "Volume"]
+    if rng.random() < 0.5:
+        rng.shuffle(cols)
     with open(path, "w") as fh:
-        fh.write("Date,Open,High,Low,Close,Adj Close,Volume\n")
+        fh.write(",".join(cols) + "\n")
         for d, o, c, a in rows:
             date = (EPOCH + pd.Timedelta(days=d)).strftime("%Y-%m-%d")
             f = lambda x: "" if x is None else repr(float(x))
-            fh.write("%s,%s,%s,%s,%s,%s,%d\n" % (date, f(o), f(200.0), f(1.0), f(c), f(a), 1000))
+            cell = {"Date": date, "Open": f(o), "High": f(200.0), "Low": f(1.0), "Close": f(c), "Adj Close": f(a), "Volume": "1000"}
+            fh.write(",".join(cell[k] for k in cols) + "\n")
 
 
 def _same(x, exp):
